@@ -69,9 +69,14 @@ type Case struct {
 	RawFlags  bool     `json:"raw_flags"`  // give -seq/-locktime/-txver on the -raw command line too
 	RawBinary bool     `json:"raw_binary"` // offer the raw transaction as a binary file instead of hex
 	Chain     bool     `json:"chain"`      // afterwards spend the updated balance folder completely
+
+	MS *MSCase `json:"multisig,omitempty"` // family "-raw on multisig P2SH inputs" (then only type/atype/testnet/rfc6979 above apply)
 }
 
 func (c *Case) label() string {
+	if c.MS != nil {
+		return fmt.Sprintf("type%d/%s/testnet=%v multisig %s", c.Type, c.AType, c.Testnet, c.MS.label())
+	}
 	var u, d []string
 	for _, x := range c.Utxos {
 		u = append(u, fmt.Sprintf("%s/k%d/%d", x.Kind, x.Key, x.Amount))
@@ -484,6 +489,18 @@ func shellQuote(args []string) string {
 
 // complexity orders cases for reporting: fewer outputs, destinations and options first.
 func (c *Case) complexity() int {
+	if c.MS != nil {
+		n := 10*len(c.MS.Keys) + 5*len(c.MS.Steps) + 3*len(c.MS.PreSigned)
+		if c.MS.Struct != "single" {
+			n += 4
+		}
+		for _, k := range c.MS.Keys {
+			if k.Owner != "A" {
+				n++
+			}
+		}
+		return n
+	}
 	n := 10*len(c.Utxos) + 10*len(c.Dests) + 3*len(c.Raw)
 	for _, b := range []bool{c.ForeignFirst, c.Layout != "sep", c.RecShape != "" && c.RecShape != "node", c.AmtFmt != "full", c.Via != "send", c.Fee != "", c.SubFee, c.Change != "", c.Msg != "",
 		c.Seq != nil, c.Lock != nil, c.TxVer != nil, c.UseAll, c.RFC6979, c.TxFn != "", c.NoApply, c.RawFlags, c.RawBinary, c.Chain, c.Testnet, c.Type != 3} {
